@@ -225,6 +225,8 @@ fn doc_texts() -> Vec<String> {
     v.push("<r><a>1</a><a>2<a>3</a></a><b x=\"it's\" y='say \"hi\"'/></r>".to_string());
     v.push("<!--pre--><?pp?><!DOCTYPE r><!--mid--><r><c/><!--in--><c x=\"1\"/></r><!--post-->".to_string());
     v.push("<r><a>x&amp;y</a><a>1<![CDATA[2]]></a><a>p<!--c-->q</a><a>&#65;B</a></r>".to_string());
+    // one DTD default received by two elements (the defaulted attributes are distinct nodes with equal name and value)
+    v.push("<!DOCTYPE r [<!ATTLIST a d CDATA \"dv\">]><r><a x=\"1\">one</a><a x=\"2\">two</a><a d=\"w\" x=\"3\"/></r>".to_string());
     v
 }
 
@@ -253,6 +255,8 @@ fn path_exprs() -> Vec<(Expr, &'static str)> {
         (path(true, vec![dslash(), c("p:a")]), "prefixed"),
         (path(true, vec![dslash(), step(Axis::Child, NodeTest::NsAny("p".into()))]), "prefixed"),
         (path(true, vec![dslash(), stepp(Axis::Child, NodeTest::Any, vec![bin(Op::And, path(false, vec![stepp(Axis::Child, NodeTest::Any, vec![path(false, vec![step(Axis::Attribute, NodeTest::Any)])])]), bin(Op::Eq, call("position", vec![]), num("2")))])]), "nested-predicate"),
+        // elements chosen by a predicate on an attribute that looks back at its element
+        (path(true, vec![dslash(), stepp(Axis::Child, name("a"), vec![path(false, vec![stepp(Axis::Attribute, name("d"), vec![bin(Op::Eq, path(false, vec![step(Axis::Parent, NodeTest::Node), step(Axis::Attribute, name("x"))]), lit("2"))])])])]), "elements"),
         (Expr::Var("v".into()), "variable"),
         (bin(Op::Div, num("1"), num("0")), "number"),
         (bin(Op::Div, num("0"), num("0")), "number"),
